@@ -359,7 +359,21 @@ type runResult struct {
 
 func announcedSuccess(pid int) bool {
 	for _, m := range simui.Log {
-		if m.Proc == pid && m.Shown && m.Method != "Errorf" && strings.Contains(strings.ToLower(m.Text), "success") {
+		if m.Proc != pid || !m.Shown || m.Method == "Errorf" {
+			continue
+		}
+		// the statement says "announces success" without fixing the wording: any of the usual words counts
+		if saysSuccess(m.Text) {
+			return true
+		}
+	}
+	return false
+}
+
+func saysSuccess(text string) bool {
+	low := strings.ToLower(text)
+	for _, w := range []string{"success", "succeeded", "done", "completed", "finished"} {
+		if strings.Contains(low, w) {
 			return true
 		}
 	}
@@ -1128,7 +1142,7 @@ func (e Engine) realTier(s scenario, files []string, sim runResult) string {
 	if code != sim.code {
 		return fmt.Sprintf("exit status: real %d, simulated %d (real stderr: %s)", code, sim.code, firstLine(se.String()))
 	}
-	announced := strings.Contains(strings.ToLower(so.String()), "success")
+	announced := saysSuccess(so.String())
 	if announced != sim.announced {
 		return fmt.Sprintf("success announced: real %v, simulated %v", announced, sim.announced)
 	}
